@@ -646,39 +646,39 @@ Proof. intros I N d H v. apply (left_inverse_kernel _ _ N d v H). Qed.
    so the certificates hold within the tolerance 1e-9, not exactly). *)
 Definition ex_inst : inst :=
 (mk_inst 3%nat 2%nat [[(2 # 1); (0 # 1); (0 # 1)]; [(0 # 1); (2 # 1); (0 # 1)]; [(0 # 1); (0 # 1);
-(2 # 1)]] [[(1 # 1); (0 # 1); (0 # 1)]; [(1 # 1); (0 # 1); (0 # 1)]; [(1 # 1); (0 # 1); (0 # 1)]]
-[[(1 # 2); (0 # 1); (0 # 1)]; [(2 # 1); (0 # 1); (0 # 1)]] [[(0 # 1); (0 # 1); (0 # 1)]; [(1 # 1);
-(0 # 1); (0 # 1)]; [(3 # 1); (0 # 1); (0 # 1)]] [[(0%nat, ((-1) # 1))]; [(0%nat, (1 # 1)); (1%nat,
-((-1) # 1))]; [(1%nat, (1 # 1))]] [[(0%nat, (6004799503160661 # 36028797018963968)); (1%nat,
-(6004799503160661 # 72057594037927936)); (3%nat, (1 # 1)); (8%nat, ((-1) # 1))]; [(0%nat,
-(6004799503160661 # 72057594037927936)); (1%nat, (1 # 2)); (2%nat, (6004799503160661 #
-36028797018963968)); (3%nat, ((-1) # 1)); (4%nat, (1 # 1))]; [(1%nat, (6004799503160661 #
-36028797018963968)); (2%nat, (6004799503160661 # 18014398509481984)); (4%nat, ((-1) # 1)); (5%nat,
-(3 # 1)); (8%nat, (1 # 1))]; [(0%nat, (1 # 1)); (1%nat, ((-1) # 1))]; [(1%nat, (1 # 1)); (2%nat,
-((-1) # 1))]] [[(6004799503160661 # 36028797018963968); (6004799503160661 # 72057594037927936); (0 #
-1)]; [(6004799503160661 # 72057594037927936); (1 # 2); (6004799503160661 # 36028797018963968)]; [(0
-# 1); (6004799503160661 # 36028797018963968); (6004799503160661 # 18014398509481984)]] [(0 # 1); (1
-# 1); (3 # 1)] (Some ([[(5192296858534827628530496329220096 # 1);
-(5192296858534827628530496329220096 # 1); (5192296858534827628530496329220096 # 1);
-(6490371073168534319490338297741312 # 1); (2596148429267413670150060088754176 # 1)];
-[(5192296858534827628530496329220096 # 1); (5192296858534827628530496329220096 # 1);
-(5192296858534827628530496329220096 # 1); ((-1298074214633706835075030044377088) # 1);
+(2 # 1)]] [[(1 # 1); (0 # 1); (0 # 1)]; [(0 # 1); (0 # 1); (0 # 1)]; [(0 # 1); (0 # 1); (0 # 1)]]
+[[(1 # 1); (0 # 1); (0 # 1)]; [(1 # 1); (0 # 1); (0 # 1)]; [(1 # 1); (0 # 1); (0 # 1)]] [[(1 # 2);
+(0 # 1); (0 # 1)]; [(2 # 1); (0 # 1); (0 # 1)]] [[(0 # 1); (0 # 1); (0 # 1)]; [(1 # 1); (0 # 1); (0
+# 1)]; [(3 # 1); (0 # 1); (0 # 1)]] [[(0%nat, ((-1) # 1))]; [(0%nat, (1 # 1)); (1%nat, ((-1) # 1))];
+[(1%nat, (1 # 1))]] [[(0%nat, (6004799503160661 # 36028797018963968)); (1%nat, (6004799503160661 #
+72057594037927936)); (3%nat, (1 # 1)); (8%nat, ((-1) # 1))]; [(0%nat, (6004799503160661 #
+72057594037927936)); (1%nat, (1 # 2)); (2%nat, (6004799503160661 # 36028797018963968)); (3%nat,
+((-1) # 1)); (4%nat, (1 # 1))]; [(1%nat, (6004799503160661 # 36028797018963968)); (2%nat,
+(6004799503160661 # 18014398509481984)); (4%nat, ((-1) # 1)); (5%nat, (3 # 1)); (8%nat, (1 # 1))];
+[(0%nat, (1 # 1)); (1%nat, ((-1) # 1))]; [(1%nat, (1 # 1)); (2%nat, ((-1) # 1))]]
+[[(6004799503160661 # 36028797018963968); (6004799503160661 # 72057594037927936); (0 # 1)];
+[(6004799503160661 # 72057594037927936); (1 # 2); (6004799503160661 # 36028797018963968)]; [(0 # 1);
+(6004799503160661 # 36028797018963968); (6004799503160661 # 18014398509481984)]] [(0 # 1); (1 # 1);
+(3 # 1)] (Some ([[(5192296858534827628530496329220096 # 1); (5192296858534827628530496329220096 #
+1); (5192296858534827628530496329220096 # 1); (6490371073168534319490338297741312 # 1);
 (2596148429267413670150060088754176 # 1)]; [(5192296858534827628530496329220096 # 1);
 (5192296858534827628530496329220096 # 1); (5192296858534827628530496329220096 # 1);
-((-1298074214633706835075030044377088) # 1); ((-5192296858534827484415308253364224) # 1)];
-[(6490371073168534319490338297741312 # 1); ((-1298074214633706835075030044377088) # 1);
-((-1298074214633706835075030044377088) # 1); ((-973555660975280096282275017479511) # 1);
-((-649037107316853381508718003224578) # 1)]; [(2596148429267413670150060088754176 # 1);
-(2596148429267413670150060088754176 # 1); ((-5192296858534827484415308253364224) # 1);
-((-649037107316853381508718003224578) # 1); ((-1298074214633706811055832031734444) # 1)]],
-(7788445287802241154565368342118400 # 1))) [(mk_local 2%nat 2%nat [[(6004799503160661 #
-36028797018963968); (6004799503160661 # 72057594037927936)]; [(6004799503160661 #
-72057594037927936); (6004799503160661 # 36028797018963968)]] [[(6004799503160661 #
-36028797018963968); (6004799503160661 # 72057594037927936)]; [(6004799503160661 #
-72057594037927936); (6004799503160661 # 36028797018963968)]] [[(0 # 1); (1 # 1)]; [(1 # 1); (0 #
-1)]]); (mk_local 2%nat 2%nat [[(6004799503160661 # 18014398509481984); (6004799503160661 #
-36028797018963968)]; [(6004799503160661 # 36028797018963968); (6004799503160661 #
-18014398509481984)]] [[(6004799503160661 # 72057594037927936); (6004799503160661 #
+((-1298074214633706835075030044377088) # 1); (2596148429267413670150060088754176 # 1)];
+[(5192296858534827628530496329220096 # 1); (5192296858534827628530496329220096 # 1);
+(5192296858534827628530496329220096 # 1); ((-1298074214633706835075030044377088) # 1);
+((-5192296858534827484415308253364224) # 1)]; [(6490371073168534319490338297741312 # 1);
+((-1298074214633706835075030044377088) # 1); ((-1298074214633706835075030044377088) # 1);
+((-973555660975280096282275017479511) # 1); ((-649037107316853381508718003224578) # 1)];
+[(2596148429267413670150060088754176 # 1); (2596148429267413670150060088754176 # 1);
+((-5192296858534827484415308253364224) # 1); ((-649037107316853381508718003224578) # 1);
+((-1298074214633706811055832031734444) # 1)]], (7788445287802241154565368342118400 # 1))) [(mk_local
+2%nat 2%nat [[(6004799503160661 # 36028797018963968); (6004799503160661 # 72057594037927936)];
+[(6004799503160661 # 72057594037927936); (6004799503160661 # 36028797018963968)]]
+[[(6004799503160661 # 36028797018963968); (6004799503160661 # 72057594037927936)];
+[(6004799503160661 # 72057594037927936); (6004799503160661 # 36028797018963968)]] [[(0 # 1); (1 #
+1)]; [(1 # 1); (0 # 1)]]); (mk_local 2%nat 2%nat [[(6004799503160661 # 18014398509481984);
+(6004799503160661 # 36028797018963968)]; [(6004799503160661 # 36028797018963968); (6004799503160661
+# 18014398509481984)]] [[(6004799503160661 # 72057594037927936); (6004799503160661 #
 144115188075855872)]; [(6004799503160661 # 144115188075855872); (6004799503160661 #
 72057594037927936)]] [[(0 # 1); (2 # 1)]; [(2 # 1); (0 # 1)]])]).
 
